@@ -9,7 +9,7 @@ def _prog_of(o):
     if isinstance(inst, (tuple, list)):
         for x in inst:
             if isinstance(x, (tuple, list)) and x and isinstance(x[0], str) and x[0] in (
-                    "leaf", "num", "var", "unary", "binary", "reduce", "subs", "slice", "getitem", "getslice", "lambda",
+                    "leaf", "num", "var", "unary", "binary", "reduce", "subs", "slice", "getitem", "getitem_at", "getslice", "lambda",
                     "stack", "cat", "outreduce", "reshape", "einsum", "independent", "align"):
                 return _tup(x)
     return None
